@@ -23,8 +23,11 @@ def _type_of(e) -> str | None:
     return e.get(XSI_TYPE)
 
 
-def fragment_model(modeldir: pathlib.Path, capella_name: str, aird_name: str, picks: list[tuple[str, str]]) -> list[str]:
+def fragment_model(modeldir: pathlib.Path, capella_name: str, aird_name: str, picks: list[tuple[str, str]], aird_style: str = "direct") -> list[str]:
     """picks: [(uuid of subtree root, fragment path relative to modeldir)], outer subtrees first for nested picks.
+    aird_style "direct": the .aird lists every fragment in a <semanticResources> entry; "chain" (what Capella writes): every
+    .capellafragment gets an .airdfragment next to it which names it RELATIVE TO ITS OWN FOLDER, and the .aird (or the
+    .airdfragment of the enclosing fragment) refers to that .airdfragment through <referencedAnalysis href=...>.
     Returns the list of fragment paths actually created."""
     parser = etree.XMLParser(remove_blank_text=True, huge_tree=True)
     files: dict[str, etree._ElementTree] = {capella_name: etree.parse(str(modeldir / capella_name), parser)}
@@ -33,6 +36,7 @@ def fragment_model(modeldir: pathlib.Path, capella_name: str, aird_name: str, pi
         if isinstance(e.tag, str) and e.get("id"):
             owner[e.get("id")] = capella_name
     created = []
+    parent_file: dict[str, str] = {}      # fragment -> the file its placeholder lives in
     main_root = files[capella_name].getroot()
     nsmap = {k: v for k, v in main_root.nsmap.items() if k}
     for uid, fpath in picks:
@@ -55,6 +59,7 @@ def fragment_model(modeldir: pathlib.Path, capella_name: str, aird_name: str, pi
         for k, v in el.attrib.items():
             if k != XSI_TYPE:
                 new_root.set(k, v)
+        parent_file[fpath] = src_file
         # ---- placeholder in the owning file
         rel = posixpath.relpath(fpath, posixpath.dirname(src_file) or ".")
         ph = etree.Element(el.tag)
@@ -115,7 +120,7 @@ def fragment_model(modeldir: pathlib.Path, capella_name: str, aird_name: str, pi
     aird = etree.parse(str(modeldir / aird_name), parser)
     aroot = aird.getroot()
     da = next((e for e in aroot.iter() if isinstance(e.tag, str) and etree.QName(e).localname == "DAnalysis"), None)
-    if da is not None:
+    if da is not None and aird_style == "direct":
         existing = [e for e in da if isinstance(e.tag, str) and e.tag == "semanticResources"]
         anchor = existing[-1] if existing else None
         for f in created:
@@ -126,5 +131,32 @@ def fragment_model(modeldir: pathlib.Path, capella_name: str, aird_name: str, pi
                 anchor = sr
             else:
                 da.insert(0, sr)
+    elif da is not None:
+        vp_ns = etree.QName(da).namespace
+        analyses: dict[str, etree._Element] = {}      # semantic file -> the DAnalysis element of the visual file that goes with it
+        analyses[capella_name] = da
+        visual_of = {capella_name: aird_name}
+        trees_out = {}
+        for n_, f in enumerate(created):
+            af = posixpath.splitext(f)[0] + ".airdfragment"
+            root_a = etree.Element(f"{{{vp_ns}}}DAnalysis", nsmap={"xmi": XMI, "viewpoint": vp_ns})
+            root_a.set(f"{{{XMI}}}version", "2.0")
+            root_a.set("uid", f"_fragA{n_:04d}harness")
+            root_a.set("version", da.get("version") or "14.3.1.202003261200")
+            sr = etree.SubElement(root_a, "semanticResources")
+            sr.text = urllib.parse.quote(posixpath.basename(f))          # relative to the .airdfragment's own folder
+            analyses[f] = root_a
+            visual_of[f] = af
+            trees_out[af] = root_a
+            # the enclosing file's analysis refers to this one, relative to ITS folder
+            encl = parent_file.get(f, capella_name)
+            host = analyses.get(encl, da)
+            ra = etree.Element("referencedAnalysis")
+            ra.set("href", urllib.parse.quote(posixpath.relpath(af, posixpath.dirname(visual_of.get(encl, aird_name)) or ".")) + "#" + root_a.get("uid"))
+            host.insert(0, ra)
+        for af, root_a in trees_out.items():
+            p = modeldir / af
+            p.parent.mkdir(parents=True, exist_ok=True)
+            p.write_bytes(etree.tostring(root_a, xml_declaration=True, encoding="UTF-8"))
     (modeldir / aird_name).write_bytes(etree.tostring(aird, xml_declaration=True, encoding="UTF-8"))
     return created
